@@ -101,6 +101,28 @@ func worldPrefix() string {
 // shortEpochHistory: delegations move, pillar 3 is revoked in the first epoch, three epochs go by and are settled by the
 // pillar contract's Update. What a follower accepts must not depend on read-only consensus queries it answered on the way
 // (they touch the consensus module's caches of period and epoch points) nor on whether it was restarted after them.
+// shortEpochGapHistory: nobody produces during the last election tick of the second epoch (the momentum at height 9 is
+// the last one that epoch will ever hold; the next one opens the third epoch), and again from the middle of a later
+// epoch's third tick to the next epoch. A follower that is asked for the running epoch's statistics while the momentum
+// before such a gap is its frontier (batches end on multiples of 3) has computed that epoch's point before the epoch
+// was over; what it accepts afterwards (the pillar contract settles the epoch from those statistics) must not depend on it.
+func shortEpochGapHistory() []ops.Op {
+	M := ops.Op{K: "M"}
+	h := []ops.Op{M, {K: "Call", S: "delegate", A: 2, B: 1}, M}
+	for i := 0; i < 6; i++ {
+		h = append(h, M)
+	}
+	h = append(h, ops.Op{K: "M", V: 3}) // height 10 opens the third epoch
+	for i := 0; i < 7; i++ {
+		h = append(h, M)
+	}
+	h = append(h, ops.Op{K: "M", V: 5})
+	for i := 0; i < 6; i++ {
+		h = append(h, M)
+	}
+	return h
+}
+
 func shortEpochHistory() []ops.Op {
 	M := ops.Op{K: "M"}
 	h := []ops.Op{M, {K: "Call", S: "delegate", A: 2, B: 1}, M, {K: "RevokeP3"}, M}
@@ -457,6 +479,7 @@ func c02Units(tier string) [][3]int {
 		}
 	}
 	u = append(u, [3]int{-1, 0, 1}) // the short-epoch world
+	u = append(u, [3]int{-2, 0, 1}) // the short-epoch world, history with production gaps at the tail of epochs
 	return u
 }
 
@@ -500,7 +523,11 @@ func runC02(c *xs.Ctx, r *xs.Result) {
 				sb = c02bounds{maxBatch: 3, maxQuery: 2, maxRestart: 1, restartAfterQueryOnly: true}
 			}
 			t0 := time.Now()
-			exploreSchedules(c, r, shortEpochHistory(), sb)
+			sh := shortEpochHistory()
+			if unit[0] == -2 {
+				sh = shortEpochGapHistory()
+			}
+			exploreSchedules(c, r, sh, sb)
 			r.Count("histories", 1)
 			r.Count("short_epoch_histories", 1)
 			r.Note("short-epoch world took %.0fs", time.Since(t0).Seconds())
